@@ -20,7 +20,8 @@ from .model import Program
 SCOPE_NAMES = ("GlobalScope", "Function", "ControlStructure", "UserDefinedType", "UserDefinedEnum", "VariableAssignation",
                "Scope")
 
-RUNTIME_ERRORS = (Raised, LookupError, TypeError, ValueError, AttributeError, ArithmeticError)
+RUNTIME_ERRORS = (Raised, LookupError, TypeError, ValueError, AttributeError, ArithmeticError, RecursionError, StopIteration,
+                  AssertionError, NameError)
 
 
 class _TypeToken:
@@ -205,7 +206,21 @@ def run_rule(prog: Program, cls_name: str, sc: StubContext, method: str = "run",
         raise Unsupported(f"no method {cls_name}.{method}")
     ev = evaluator_for(prog, cls_name, sc, max_steps)
     me = Obj(cls_name, context=sc.obj, name=cls_name)
+    # class-level constants (own class first, then bases) are visible on the instance
+    from .fold import class_constants
+    seen, todo = set(), [cls_name]
+    while todo:
+        c = todo.pop(0)
+        if c in seen or c not in prog.classes:
+            continue
+        seen.add(c)
+        for a, v in class_constants(prog.classes[c]).items():
+            me.__dict__.setdefault(a, v)
+        todo.extend(prog.classes[c].bases)
     return ev.invoke(m.node, [me, sc.obj] + list(extra_args), {})
+
+
+_NOVALUE = object()
 
 
 def default_object(prog: Program, cls_name: str, sc: "StubContext", args: Sequence = ()) -> Obj:
